@@ -2,7 +2,7 @@
 
 * /repo/src/_griffe/expressions.py -- every dataclass deriving `Expr`: its serialised fields in the order
   `_expr_as_dict` emits them (sorted by name, `parent` dropped) and, per field, whether the declared type is a
-  sequence (`Sequence[...]` / `list[...]`) or a scalar (str / bool / None / Expr / an Expr class / ParameterKind);
+  sequence (`Sequence[...]` / `list[...]`) or a scalar (str / bool / int / None / Expr / an Expr class / ParameterKind);
 * /repo/src/_griffe/docstrings/models.py -- the keys `DocstringElement.as_dict` and `DocstringNamedElement.as_dict`
   emit, and for every `DocstringSection*` class its `kind` value and the shape of its value: text, a list of plain
   elements, a list of named elements, a list of (kind, text) example pairs, or one element.
@@ -17,7 +17,7 @@ from pathlib import Path
 from harness.common.framework import REPO, VERIF, TranslatorError
 from harness.translate.c09_schema import coq_list, coq_string, enum_values
 
-SCALAR_NAMES = {"str", "bool", "None", "Expr", "ParameterKind"}
+SCALAR_NAMES = {"str", "bool", "int", "None", "Expr", "ParameterKind"}
 
 
 def _is_dataclass(node: ast.ClassDef) -> bool:
